@@ -40,7 +40,7 @@ class _Boom(Exception):
     pass
 
 
-def run_case(case):
+def run_case(case, trace=False):
     (conform, provided, hooks, custom, alt, entry) = case
     from zope.interface import Interface, implementer, interfacemethod
     from zope.interface import interface as zi
@@ -228,6 +228,9 @@ def run_case(case):
             got = ('raise', type(e).__name__)
     finally:
         zi.adapter_hooks[:] = saved
+    if trace:
+        r = got[1]
+        return [got[0], 'ob' if r is ob else repr(r), list(log)]
     desc = dict(conform=ck_full, provided=bool(provided), hooks=[HOOK[k] for k in hooks], custom=CUSTOM[custom],
                 alternate=ALT[alt], entry=ENTRY[entry])
     same = (got[0] == expected[0]) and (got[1] is expected[1] if got[0] == 'ret' else got[1] == expected[1])
